@@ -21,7 +21,11 @@ RULE = ('cases = corpus (F6/F7 witnesses, every single cut of 6 adversarial bodi
         'two bytes after a delimiter, or a delimiter look-alike; distinct by (boundary, body, cuts, via)')
 TRUSTED = ['modelled, not verified: the header-end regular expression end_headers_patt is re-implemented by hand as '
            'Multipart.hsearch/alt2 (source text pinned by proofs/C06_model_pins.v, behaviour tied by this correspondence)',
-           'bytes slicing/startswith/== are modelled by lib/Str.v slice/prefixb/str_eqb']
+           'modelled, not verified: bytes slicing/startswith/== are lib/Str.v slice/prefixb/str_eqb; the assert of '
+           'MatchTail.match_tail (slen <= len) is discharged at its two call sites rather than modelled',
+           'no section hypotheses: every C06 theorem is closed; wf_prefix is the executable MultipartRef.wf_prefixb, '
+           'validated on every run against an independent Python statement (tools/props/C06.py: py_wf)',
+           'Request.forms/files under varied max_memfile_size: correspondence and oracle only (no C06 theorem)']
 ASSUMPTIONS = ['CR does not occur in the boundary (the code rejects such a boundary with InvalidBoundaryError)',
                'split independence is claimed for wf_prefix bodies (coq/model/MultipartRef.v: wf_prefixb); for other '
                'inputs the parser is knowingly split dependent (C12 covers them: no server fault)']
@@ -565,8 +569,30 @@ def shrink(case):
 PREDICATES = {}
 
 MANIFEST = dict(
-    text='(set at the end of the file)',
-    note='',
-    technique='Coq proof (refinement of the streaming parser to a one-piece reference scanner) + model/implementation correspondence',
+    text=('Proof: theorem C06_stream_eq_ref (Coq, closed under the global context) states for EVERY boundary without '
+          'CR, every well-formed body prefix (wf_prefix: any prefix of [CRLF]--B(CRLF hdrs CRLFCRLF data)*CRLF--B-- '
+          'epilogue, data free of CRLF--B, header blocks without "CR LF LF" and with "CR LF CR" only before LF) and '
+          'EVERY division of it into chunks (any number, empty ones included) that the streaming parser of '
+          'coq/model/Multipart.v ends with exactly the sections and error of the one-piece reference scanner ref '
+          '(coq/model/MultipartRef.v, built on first-occurrence search only); C06_split_independent and '
+          'C06_split_independent_pairwise are its corollaries (two divisions of the same bytes give the same result). '
+          'Staging lemmas, each a theorem of its own: C06_match_tail_unique/_spec, C06_eat_data_spec (block-wise '
+          'search with carry = first occurrence in carried prefix ++ chunk[base:], else longest partial match), '
+          'C06_eat_headers_spec, C06_carry_is_longest_partial_match. The model follows multipart.py branch for branch '
+          '(MatchTail index table, the three eaters, negative section ends, first error sticks, fixes F6 and F7 '
+          'applied); the header-end regex is re-implemented as a scanner whose source text is pinned '
+          '(C06_end_headers_regex_pinned breaks when the regex is edited). The model is tied to /repo on every run by a '
+          'differential correspondence (extracted OCaml + vm_compute) on MultipartMarkup.markups/.error after feeding '
+          'chunks and through WSGI with max_memfile_size as the chunking, on which ref and wf_prefixb are validated '
+          'too (against the one-piece parse of the implementation and an independent Python statement of wf_prefix); '
+          'an independent oracle (chunks == one piece, on the implementation only) finds the failing input.'),
+    note=('Trusted: Coq kernel + vm_compute; extraction (ExtrOcamlBasic only); the Python harness; '
+          'tools/gen_constants.py for the regex text. Modelled not verified: CPython re semantics of '
+          '(\\r\\n\\r\\n)|(\\r(\\n\\r?)?)$ (hand-written scanner hsearch/alt2), bytes slicing/startswith/== '
+          '(lib/Str.v). Outside wf_prefix (malformed bodies) the parser is knowingly split dependent and nothing is '
+          'claimed here (C12 claims "no server fault" there). Request.forms/files under varied max_memfile_size are '
+          'covered by the correspondence/oracle only (their model is C07).'),
+    technique='Coq proof (refinement of the streaming parser to a one-piece reference scanner by a state abstraction) '
+              '+ model/implementation correspondence + exhaustive cut enumeration as failing-input search',
     design_ref='DESIGN.md section 4, C06; Appendix A.1, A.7',
 )
